@@ -10,6 +10,7 @@ use super::{c03, c04, c15, c16, replay_info, sseed, Check, Ctx, Stream};
 use crate::json::{hex, J};
 use crate::runner::{Report, Tier};
 use btdht::verif::{AIDGenerator, MIDGenerator};
+use rand::seq::SliceRandom;
 use rand::{Rng, SeedableRng};
 use rand_chacha::ChaCha8Rng;
 
@@ -153,6 +154,73 @@ fn generator_scenario(ctx: &Ctx, idx: u64) -> Report {
     report
 }
 
+/// One node runs more searches than an action-id block holds (2048), so that its id generator
+/// crosses at least one block boundary while the bootstrap and refresh activities (which got their
+/// ids first) are alive: every search must get a prefix no live activity uses. Decided by the wire
+/// monitor plus the hook log of activity ids.
+fn many_searches_scenario(ctx: &Ctx, idx: u64) -> Report {
+    use crate::bed::{node_addr, world_addr, world_ids};
+    use crate::simnet::{run_sim, sleep_us, Link, Net, MS};
+    use crate::world::{spawn_node, NodeCfg, WNode, World};
+    use futures_util::StreamExt;
+    let ctx = *ctx;
+    run_sim(move || async move {
+        let mut report = Report::default();
+        let seed = sseed(&ctx, "wire-many-searches", idx);
+        let mut rng = ChaCha8Rng::seed_from_u64(seed);
+        let info = replay_info("C19", "wire-many-searches", &ctx, idx);
+        let net = Net::new(seed);
+        let v6 = rng.gen_bool(0.3);
+        let addr = node_addr(v6, 1);
+        let id = crate::gen::rand_id(&mut rng);
+        // tiny world: the node keeps re-bootstrapping (bootstrap activity busy), searches are short
+        let world_size = rng.gen_range(1..=3usize);
+        let nodes: Vec<WNode> = world_ids(&mut rng, world_size, &id, 0.0)
+            .into_iter()
+            .enumerate()
+            .map(|(i, wid)| WNode::new(wid, world_addr(v6, i as u32)))
+            .collect();
+        let contacts: Vec<_> = nodes.iter().map(|n| n.addr).collect();
+        let owned: std::collections::HashSet<_> = contacts.iter().copied().collect();
+        let mut world = World::new(nodes);
+        world.keep_served = false;
+        net.add_actor(move |a| owned.contains(a), world);
+        net.set_link(Link::uniform(MS, 20 * MS));
+        let mut cfg = NodeCfg::new(addr);
+        cfg.id = Some(id);
+        cfg.nodes = contacts;
+        let dht = spawn_node(&net, &cfg);
+        report.evaluations += 1;
+        let _ = tokio::time::timeout(std::time::Duration::from_secs(60), dht.bootstrapped()).await;
+        let total = BLOCK as usize + rng.gen_range(16..300);
+        let batch = *[1usize, 16, 64, 256, 2400].choose(&mut rng).unwrap();
+        let mut started = 0;
+        while started < total {
+            let k = batch.min(total - started);
+            let mut running = Vec::new();
+            for _ in 0..k {
+                let mut stream = dht.search(btdht::InfoHash::from(crate::gen::rand_id(&mut rng)), false);
+                running.push(tokio::spawn(async move { while stream.next().await.is_some() {} }));
+            }
+            started += k;
+            for r in running {
+                if tokio::time::timeout(std::time::Duration::from_secs(120), r).await.is_err() {
+                    report.cross("C04", "never-ends", "a search of the many-searches run did not end within 120 s", info.clone());
+                }
+            }
+            sleep_us(rng.gen_range(0..50 * MS)).await;
+        }
+        report.add("searches_started_on_one_node", started as u64);
+        report.count("nodes_taken_past_an_action_id_block_boundary");
+        report.distinct(format!("many-searches/batch{batch}/world{world_size}/v6{v6}"));
+        if idx == 0 {
+            report.sample(J::obj().with("searches_on_one_node", started).with("concurrent", batch).with("world", world_size));
+        }
+        crate::wiremon::always_on(&mut report, &net, &[addr], &info);
+        report
+    })
+}
+
 pub fn check(tier: Tier) -> Check {
     Check {
         id: "C19",
@@ -167,7 +235,10 @@ pub fn check(tier: Tier) -> Check {
                every emitted query has an 8-byte id; an id is used twice only by the identical find_node of the \
                first bootstrap round towards pairwise distinct addresses; each query's 5-byte prefix belongs to \
                the live activity of its kind (hook log of activity ids and search start/finish); live \
-               activities never share a prefix. distinct_nontrivial = generator cases + distinct scenario \
+               activities never share a prefix. Stream wire-many-searches: one node (world of 1..3 contacts, so it \
+               keeps re-bootstrapping) runs 2064..2350 searches, 1 / 16 / 64 / 256 / all at a time, taking its \
+               action-id generator past a 2048-id block boundary while bootstrap and refresh are alive; same \
+               monitor. distinct_nontrivial = generator cases + distinct scenario \
                classes of the re-run streams.",
         assumptions: vec![
             "uniqueness of action ids over the whole 2^40 period is not runtime-reachable; both ends of the range are covered",
@@ -180,6 +251,7 @@ pub fn check(tier: Tier) -> Check {
             Stream::new("wire-faults", tier.pick(100, 2000), c04::faults_scenario_pub),
             Stream::new("wire-bootstrap", tier.pick(200, 4000), c15::scenario_pub),
             Stream::new("wire-early", tier.pick(100, 2000), c16::scenario_pub),
+            Stream::new("wire-many-searches", tier.pick(16, 160), many_searches_scenario),
         ],
         require: vec![
             ("full_message_id_cycles", tier.pick(4, 16)),
@@ -190,6 +262,7 @@ pub fn check(tier: Tier) -> Check {
             ("queries_attributed_to_an_activity", tier.pick(50_000, 1_000_000)),
             ("activities_checked_for_prefix_sharing", tier.pick(1_000, 20_000)),
             ("tids_shared_by_design_first_bootstrap_round", tier.pick(500, 10_000)),
+            ("nodes_taken_past_an_action_id_block_boundary", tier.pick(16, 160)),
         ],
         exhaustive: false,
     }
